@@ -489,6 +489,12 @@ def numeric_probe(ob, seed, tries=4000, want=200):
 def _numeric_probe(ob, seed, tries=4000, want=200):
     """fallback for undecided obligations without uninterpreted applications: evaluate at random admissible points.
     A numeric violation is a validated counterexample; agreement leaves the obligation undecided."""
+    eqs = _eq_subst(ob)
+    if eqs:          # hypotheses `variable == term` are solved for the variable (sampling cannot hit an equality)
+        from .ir import subst as _sb
+        memo_ = {}
+        hy2 = [x for x in (_sb(h, eqs, memo_) for h in ob.hyps) if x is not TRUE]
+        ob = Ob(ob.name, hy2, _sb(ob.goal, eqs, memo_), ob.prop, ob.expect, ob.meta, ob.lemmas)
     xs = list(ob.hyps) + [ob.goal]
     apps = collect(xs, lambda n: isinstance(n, T) and n.op == 'app')
     apps_sorted = [n for n in _nodes(ob) if n.op == 'app']
